@@ -3,7 +3,7 @@ CONSTANTS
   MaxStages = 3
   Deviations = {}
 INVARIANT LeavesNothing
-INVARIANT NoBothEndsAfterStart
+INVARIANT NoWriterAfterDrain
 INVARIANT OnlyRunningThingsWhileDraining
 PROPERTY Terminates
 CHECK_DEADLOCK FALSE
